@@ -201,7 +201,15 @@ impl PartitionStorage for FilePartitionStorage {
                 last_segment.end_offset = last_segment.current_offset;
             }
 
-            partition.current_offset = last_segment.current_offset;
+            if last_segment.size_bytes == 0 && last_segment.start_offset > 0 {
+                // An empty last segment which doesn't start at 0 was created after all the previous
+                // messages had been deleted (or right after a roll-over): the last message of the
+                // partition is the one just before it and the next one has to continue from there.
+                partition.current_offset = last_segment.start_offset - 1;
+                partition.should_increment_offset = true;
+            } else {
+                partition.current_offset = last_segment.current_offset;
+            }
         }
 
         partition
